@@ -5,7 +5,7 @@ META = dict(
            'M3 = CheckedMessage<> {uint32; string}, M4 {fixed_buffer<uint32>; iovec_array}, M5 {sorted_map<string, V{uint64}>} with one index entry, M6 {buffer}. '
            'Round trip: every field length 0..2 bytes/elements (symbolic contents), serialized by the real SerializerIOV, the byte stream re-cut at symbolic points into '
            'NPF+1 iovec elements (NPF = 0, 1, 2; zero-length elements included), every piece end-aligned in its own object, deserialized by the real DeserializerIOV. '
-           'Hostile: all sizeof(T) body bytes arbitrary (64-bit lengths and pointer bits), payload of 0..PMAX arbitrary bytes (PMAX 4 quick / 6 thorough), same fragmentations; '
+           'Hostile: all sizeof(T) body bytes arbitrary (64-bit lengths and pointer bits), payload of 0..PMAX arbitrary bytes (PMAX 4; 6 for M1 and M6 in the thorough tier), same fragmentations; '
            'body contiguous in the last element (FRAG 0, the payload tail may share that element) or cut strictly inside the body so that it is reassembled through the '
            'allocator (FRAG 1). The allocator of the input vector is a harness callback returning exact-size blocks (optionally failing symbolically).',
     outside='messages with more than 3 variable-length fields or longer payloads; more than 3 iovec elements; sorted maps with more than one entry, sorted_map::find '
@@ -28,12 +28,12 @@ NAMES = {1: 'int_buffer_string', 2: 'nested_array_aligned', 3: 'checked', 4: 'fi
 FR = {(0, 0): 'one contiguous buffer', (0, 1): '2 elements, body contiguous', (0, 2): '3 elements, body contiguous', (1, 1): '2 elements, cut inside the body',
       (1, 2): '3 elements, last cut inside the body'}
 
-def gen(msg, mode, frag, npf, pmax, fmax=2, extra=(), to=900, name=None, entry=None, un=None, nullgep=False, desc=None):
+def gen(msg, mode, frag, npf, pmax, fmax=2, extra=(), to=900, name=None, entry=None, un=None, nullgep=False, desc=None, us_extra=()):
     sz = SIZES[msg]
     D = ['MSG=%d' % msg, 'FRAG=%d' % frag, 'NPF=%d' % npf, 'PMAX=%d' % pmax, 'FMAX=%d' % fmax] + list(extra)
     # every loop of the harness is fully unrolled at compile time; what reaches the solver are the library's loops over iovec
     # elements (at most NPF+1 elements), the byte loop that stands for memcpy with a symbolic length and the checksum recorder's byte loop
-    us = ['verif_memcpy_n.0:%d' % ((sz if frag == 1 else pmax) + 1), 'f__ZL7crc_recPKhmj.0:%d' % (pmax + 1)]
+    us = ['verif_memcpy_n.0:%d' % ((sz if frag == 1 else pmax) + 1), 'f__ZL7crc_recPKhmj.0:%d' % (pmax + 1)] + list(us_extra)
     nm = name or 'm%d_%s_f%d_n%d' % (msg, mode, frag, npf)
     return Job(nm, SRC, entry or 'harness_' + mode, defines=D, unwind=un or npf + 3, unwindset=us, shims=SH, ir2c=STUB + (['--null-gep-ok'] if nullgep else []), timeout=to,
                desc=desc or '%s of %s, %s' % (mode, NAMES[msg], FR[(frag, npf)]), bounds='payload <= %d bytes, fields <= %d elements, %d iovec elements' % (pmax, fmax, npf + 1))
@@ -41,7 +41,7 @@ def gen(msg, mode, frag, npf, pmax, fmax=2, extra=(), to=900, name=None, entry=N
 def jobs(tier):
     q = tier == 'quick'
     to = 900 if q else 6000
-    P = 4 if q else 6
+    P = 4
     J = []
     frs = [(0, 0), (0, 2)] if q else [(0, 0), (0, 1), (0, 2)]
     for msg in (1, 2, 3, 4, 6):
@@ -49,15 +49,19 @@ def jobs(tier):
             for frag, npf in frs:
                 pm = P
                 if msg == 4 and mode == 'roundtrip': pm = 6          # fixed buffer (4 bytes) + iovec elements
+                if q and msg == 2 and npf == 2: npf = 1              # three fields: 3 elements take > 3 min, thorough tier only
                 J.append(gen(msg, mode, frag, npf, pm, extra=['IOVEC_POOL'] if msg == 4 else [], nullgep=(msg == 4), to=to))
+    if not q:
+        # deeper: payload up to 6 bytes, round-trip fields up to 3 bytes
+        for msg in (1, 6):
+            for mode in ('hostile', 'roundtrip'):
+                for frag, npf in ((0, 0), (0, 2)):
+                    J.append(gen(msg, mode, frag, npf, 6, fmax=3, to=to, name='m%d_%s_f%d_n%d_p6' % (msg, mode, frag, npf)))
     # body cut in the middle: reassembled through the allocator (copying path of extract_back_continuous), then validated / parsed in the copy
-    for msg in ((6, 3) if q else (6, 3, 1)):
-        for mode in ('hostile', 'roundtrip'):
-            if q and msg == 3 and mode == 'hostile': continue     # > 15 min
-            for npf in ((1,) if q else (1, 2)):
-                J.append(gen(msg, mode, 1, npf, P, to=to))
+    for msg, mode, npf in [(6, 'hostile', 1), (6, 'roundtrip', 1)] + ([] if q else [(3, 'roundtrip', 1), (6, 'hostile', 2), (6, 'roundtrip', 2)]):
+        J.append(gen(msg, mode, 1, npf, P, to=to))
     # a checked message with one payload byte altered after serialization
-    J.append(gen(3, 'roundtrip', 0, 2 if not q else 1, P, extra=['ALTER'], name='m3_altered_byte', to=to, desc='checked message, one payload byte altered: rejected'))
+    J.append(gen(3, 'roundtrip', 0, 1, P, extra=['ALTER'], name='m3_altered_byte', to=to, desc='checked message, one payload byte altered: rejected'))
     # allocator failures
     J.append(gen(6, 'hostile', 1, 1, P, extra=['ALLOCFAIL=1'], name='m6_hostile_allocfail', to=to, desc='hostile bytes, allocator may fail: deserialize fails cleanly'))
     J.append(gen(4, 'hostile', 0, 2, P, extra=['IOVEC_POOL', 'ALLOCFAIL=1', 'NO_SIZE_MAX'], nullgep=True, name='m4_hostile_allocfail_no_sizemax', to=to,
@@ -74,11 +78,12 @@ def jobs(tier):
     j.kf = 'C12-zero-length-accessors'; J.append(j)
     # sorted_map
     SM = ['BLEN=10']
-    J.append(gen(5, 'sortedmap', 0, 0, 42, extra=SM + ['SM_MODE=1'], name='sortedmap_wellformed', un=14, nullgep=True, to=to,
+    SMU = ['f_harness_sortedmap.%d:12' % i for i in range(3)]     # the harness loop that reads the key bytes
+    J.append(gen(5, 'sortedmap', 0, 0, 42, extra=SM + ['SM_MODE=1'], name='sortedmap_wellformed', un=4, us_extra=SMU, nullgep=True, to=to,
                  desc='received sorted_map whose index entry lies inside the base buffer: begin/end/operator-> return the denoted key and value'))
-    J.append(gen(5, 'sortedmap', 0, 0, 42, extra=SM + ['SM_MODE=2'], name='sortedmap_roundtrip', un=14, nullgep=True, to=to,
+    J.append(gen(5, 'sortedmap', 0, 0, 42, extra=SM + ['SM_MODE=2'], name='sortedmap_roundtrip', un=4, us_extra=SMU, nullgep=True, to=to,
                  desc='one-entry sorted_map laid out like sorted_map_factory, serialized, deserialized, read back'))
-    j = gen(5, 'sortedmap', 0, 0, 42, extra=SM + ['SM_MODE=0'], name='hostile_sortedmap', un=14, nullgep=True, to=to,
+    j = gen(5, 'sortedmap', 0, 0, 42, extra=SM + ['SM_MODE=0'], name='hostile_sortedmap', un=4, us_extra=SMU, nullgep=True, to=to,
             desc='received sorted_map with an arbitrary index entry: the library accessors must stay inside the supplied bytes (FAILS: slice::anchor only assert()s its bounds)')
     j.kf = 'C12-sortedmap-anchor'
     J.append(j)
